@@ -419,8 +419,9 @@ def _misc_pairs(ctx):
     d = prog.fn("<key::CoseKeySet as common::AsCborValue>::from_cbor_value")
     agg = codec.OkAggregate(d)
     dt = agg.term("0") if not agg.problem else None
-    ok = (is_call(rt, codec.TO_ARRAY) and rt[2] == (("field", ("param", 0), "0"),) and dt is not None and dt[0] == "tryok"
-          and is_call(dt[1], codec.TRY_ARRAY_CONVERT) and dt[1][2][1][0] == "fn" and codec.type_of_decoder(dt[1][2][1][2]) == "key::CoseKey")
+    ad = codec.array_of_decoded(prog, d, agg.pv, VecLen(d), agg, "0") if not agg.problem else None
+    ok = (is_call(rt, codec.TO_ARRAY) and rt[2] == (("field", ("param", 0), "0"),) and ad is not None
+          and ad[0] == ("param", 0) and ad[1] == "key::CoseKey")
     ctx.ob("R-1", "pair:key::CoseKeySet", ok, "CoseKeySet: array of keys <-> to_cbor_array(self.0)", where=d.span)
     # ProtectedHeader as a bare map
     n += 1
